@@ -206,4 +206,17 @@ DefaultVerifiesInv == Family = "mime" =>
 IdsInv == Family = "ids" => EndpointNamesOK /\ AsIsEndpointNamesBroken
 ReqInv == Family = "req" => ReqModelOK
 CdnInv == Family = "cdn" => UrlsDiffer /\ HitMeansNoRequest /\ OnlySuccessStored /\ MissMeansRequest
+
+\* --------------------------------------------------------------------------- refutation runs (Fdev # {})
+\* The same clauses, restricted to the states in which the code-shaped variant's answer is determinate (no second
+\* certificate that might be matched first) and no other deviation hides the one under study (no checksum, no binary
+\* body): the counterexample TLC prints is then a program on which the real code must show exactly this deviation.
+SoundW    == Family = "verify" /\ Verdicts(prog.cms, prog.data, Fdev) = {"valid"} /\ prog.data # 0
+               => (Authentic(prog.cms, prog.data) \/ (Witness("Sound") /\ FALSE))
+CompleteW == Family = "verify" /\ Cardinality(Verdicts(prog.cms, prog.data, Fdev)) = 1
+               => (Complete(prog.cms, prog.data, Fdev) \/ (Witness("Complete") /\ FALSE))
+Plain(e)  == e.cks = "none" /\ e.enc = "cte" /\ e.mp
+AuthenticW == Family = "mime" /\ Plain(prog.env) /\ prog.sd = "part"
+               => (VerifiedMeansAuthentic(prog.env, prog.sd, Fdev) \/ (Witness("VerifiedMeansAuthentic") /\ FALSE))
+DefaultW  == Family = "mime" /\ Plain(prog.env) => DefaultVerifiesInv
 =============================================================================
